@@ -37,7 +37,7 @@ CLSN = 'PrefetchedCourierServer'
 
 
 def run(ctx: Ctx):
-  for r in (r1, r2, r3, r4, r5):
+  for r in (r1, r2, r3, r4, r5, r8):
     ctx.guard(r)
   from mlmverif.props._queue import model as qmodel
   ctx.include('R-C15-6', '"never leaves a request blocked" / "end marker'
@@ -47,6 +47,10 @@ def run(ctx: Ctx):
               ' held (R-C04-4), return values recorded before consumers are'
               ' woken (R-C04-6)', _c04_shared, qmodel(ctx), min_instances=10)
   from mlmverif.props import c04
+  ctx.include('R-C15-9', '"receives exactly the generator\'s elements": the prefetch'
+              ' queue is not "done" before the prefetch thread has registered'
+              ' as producer (R-C04-13 initial-state folding of enqueue_done)',
+              c04.r13, qmodel(ctx), min_instances=2)
   ctx.include('R-C15-7', '"a generator failure is delivered as that exception'
               ' after the elements produced before it": the blocking batch read'
               ' the server uses never discards a batch in progress (R-C04-11)',
@@ -347,10 +351,73 @@ def r5(ctx: Ctx):
   ctx.floor(rule, 3)
 
 
+def r8(ctx: Ctx):
+  rule = 'R-C15-8'
+  ctx.rule(rule, 'a subclass constructor does not lose its own state to the base'
+           ' constructor: a field that the base __init__ (transitively through'
+           ' super) also assigns is assigned by the subclass only AFTER'
+           ' super().__init__() — assigned before, the base resets it (e.g.'
+           ' the shutdown callback back to None, so shutting down no longer'
+           ' stops the prefetch and a pending request is never released)')
+  repo = ctx.repo
+  n = 0
+  for mod in ('chainables.courier_server', 'utils.iter_utils', 'chainables.courier_worker',
+              'utils.courier_utils'):
+    mi = repo.module(mod)
+    for ci in mi.classes.values():
+      init = ci.methods.get('__init__')
+      if init is None:
+        continue
+      sup = [x for x in init.node.body if isinstance(x, ast.Expr) and isinstance(x.value, ast.Call)
+             and unparse(x.value.func) == 'super().__init__']
+      if not sup:
+        continue
+      base_fields: set[str] = set()
+      for b in repo.mro(ci)[1:]:
+        bi = b.methods.get('__init__')
+        if bi is None:
+          continue
+        for x in walk_no_nested(bi.node):
+          if isinstance(x, (ast.Assign, ast.AnnAssign)):
+            for t in (x.targets if isinstance(x, ast.Assign) else [x.target]):
+              if is_self_attr(t):
+                base_fields.add(t.attr)
+      n += 1
+      idx = init.node.body.index(sup[0])
+      early = []
+      for st in init.node.body[:idx]:
+        for x in ast.walk(st):
+          if isinstance(x, (ast.Assign, ast.AnnAssign)):
+            for t in (x.targets if isinstance(x, ast.Assign) else [x.target]):
+              if is_self_attr(t) and t.attr in base_fields:
+                early.append((t.attr, x))
+      if early:
+        f, node = early[0]
+        ctx.fail(rule, init, f'{ci.name}.__init__: self.{f} assigned after super().__init__()',
+                 f'{ci.name}.__init__ assigns `self.{f}` before calling super().__init__(),'
+                 f' and the base constructor assigns `self.{f}` too: the subclass value'
+                 ' is overwritten as soon as the base constructor runs', node=node)
+      else:
+        ctx.ok(rule, init, f'{ci.name}.__init__: no field shared with the base is set before super().__init__()',
+               sup[0])
+  ctx.floor(rule, 3, n)
+
+
 from mlmverif.selfcheck import B, OK  # noqa: E402
 
 _F = 'chainables/courier_server.py'
 VARIANTS = [
+    B('subclass-state-before-base-init', _F,
+      '    super().__init__(\n        server_name,\n        port=port,\n        auto_shutdown_secs=timeout_secs,\n        clients=clients,\n    )\n    self.prefetch_size = prefetch_size',
+      '    self._shutdown_callback = self._stop_prefetch\n    super().__init__(\n        server_name,\n        port=port,\n        auto_shutdown_secs=timeout_secs,\n        clients=clients,\n    )\n    self.prefetch_size = prefetch_size',
+      'R-C15-8'),
+    OK('subclass-own-state-before-base-init', _F,
+       '    super().__init__(\n        server_name,\n        port=port,\n        auto_shutdown_secs=timeout_secs,\n        clients=clients,\n    )\n    self.prefetch_size = prefetch_size',
+       '    self.prefetch_size = prefetch_size\n    super().__init__(\n        server_name,\n        port=port,\n        auto_shutdown_secs=timeout_secs,\n        clients=clients,\n    )'),
+    B('fresh-queue-reports-done', 'utils/iter_utils.py',
+      '    if not self._max_enqueuer:\n      return False\n    return self._enqueue_start == self._enqueue_stop == self._max_enqueuer',
+      '    remaining = self._enqueue_start - self._enqueue_stop\n    return not remaining and self._enqueue_start >= self._max_enqueuer',
+      'R-C15-9'),
     B('init-without-lock', _F,
       '    with self._generator_lock:\n      logging.debug(\'chainable: %s\', f\'Constructing generator: {maybe_lazy}\')\n',
       '    if True:\n      logging.debug(\'chainable: %s\', f\'Constructing generator: {maybe_lazy}\')\n',
